@@ -97,7 +97,7 @@ func ChildMain() {
 	close(ch)
 	wg.Wait()
 
-	leaked, fds := settle(4*time.Second, baseFD)
+	leaked, fds := settle(3*time.Second, baseFD)
 	res.LeakedGo = leaked
 	res.LeakedFDs = fds - baseFD
 	if res.LeakedFDs < 0 {
